@@ -245,7 +245,7 @@ theorem symp_eq_one_iff {n : ℕ} {a b : List Nat} (ha : a.length = 2 * n) (hb :
     symp a b = 1 ↔ sympForm n (toVec n a) (toVec n b) = 1 := by
   rw [← symp_cast ha hb, cast_eq_one_iff (symp_lt_two a b)]
 
-theorem vxor_length (a b : List Nat) (h : a.length = b.length) : (vxor a b).length = a.length := by
+theorem vxor_length_alg (a b : List Nat) (h : a.length = b.length) : (vxor a b).length = a.length := by
   simp [vxor, vadd_length a b h]
 
 theorem vxor_binary (a b : List Nat) : ∀ x ∈ vxor a b, x < 2 := by
@@ -337,18 +337,18 @@ theorem toVec_injective {n : ℕ} {a b : List Nat} (ha : a.length = 2 * n) (hb :
   have eb : b = xPart b ++ zPart b := by simp [xPart, zPart]
   rw [ea, eb, h1, h2]
 
-theorem xorCombo_length (m : ℕ) : ∀ (sel : List Bool) (rows : List (List Nat)),
+theorem xorCombo_length_alg (m : ℕ) : ∀ (sel : List Bool) (rows : List (List Nat)),
     (∀ r ∈ rows, r.length = m) → (xorCombo m sel rows).length = m
   | [], rows, _ => by simp [xorCombo, vzero]
   | s :: sel, [], _ => by simp [xorCombo, vzero]
   | s :: sel, r :: rows, h => by
-    have ih := xorCombo_length m sel rows (fun r hr => h r (by simp [hr]))
+    have ih := xorCombo_length_alg m sel rows (fun r hr => h r (by simp [hr]))
     have hr : r.length = m := h r (by simp)
     unfold xorCombo
     cases s
     · simpa using ih
     · simp only [if_true]
-      rw [vxor_length _ _ (by rw [hr, ih]), hr]
+      rw [vxor_length_alg _ _ (by rw [hr, ih]), hr]
 
 theorem vzero_binary (m : ℕ) : ∀ x ∈ vzero m, x < 2 := by
   intro x hx
@@ -382,7 +382,7 @@ theorem toVec_xorCombo (n : ℕ) : ∀ (sel : List Bool) (rows : List (List Nat)
     cases s
     · simp [ih]
     · simp only [if_true]
-      rw [toVec_vxor n _ _ (by rw [hr, xorCombo_length _ _ _ hrows]), ih]
+      rw [toVec_vxor n _ _ (by rw [hr, xorCombo_length_alg _ _ _ hrows]), ih]
 
 /-- the rows as an indexed family of vectors -/
 def rowVec (n : ℕ) (rows : List (List Nat)) : Fin rows.length → PVec n := fun i => toVec n rows[i]
@@ -441,7 +441,7 @@ theorem inSpan_iff_mem_rowSpan {n : ℕ} {rows : List (List Nat)} {e : List Nat}
   · rintro ⟨sel, hl, h⟩
     refine ⟨sel, hl, ?_⟩
     rw [← toVec_xorCombo n sel rows hrows] at h
-    exact toVec_injective (xorCombo_length _ _ _ hrows) he (xorCombo_binary _ _ _) be h
+    exact toVec_injective (xorCombo_length_alg _ _ _ hrows) he (xorCombo_binary _ _ _) be h
 
 /-- one direction needs no hypothesis on `e` -/
 theorem mem_rowSpan_of_inSpan {n : ℕ} {rows : List (List Nat)} {e : List Nat}
@@ -458,7 +458,7 @@ theorem xorCombo_eq_vzero_iff {n : ℕ} {rows : List (List Nat)} (sel : List Boo
   · intro h; rw [h, toVec_vzero]
   · intro h
     rw [← toVec_vzero n (2 * n)] at h
-    exact toVec_injective (xorCombo_length _ _ _ hrows) (by simp [vzero])
+    exact toVec_injective (xorCombo_length_alg _ _ _ hrows) (by simp [vzero])
       (xorCombo_binary _ _ _) (vzero_binary _) h
 
 /-- `Indep` is linear independence of the family of rows -/
